@@ -21,9 +21,11 @@ Meats == IF Depth = 1 THEN {0, 1, 3} ELSE {0, 1, 2, 4}
 RetimeCases == {[k |-> "Retime", m1 |-> <<a1, a2, a3>>, m2 |-> <<b1, b2, b3>>] :
                  a1 \in Meats, a2 \in Meats, a3 \in Meats, b1 \in Meats, b2 \in Meats, b3 \in Meats}
 BV == {0, 2}
-BumpCases == {x \in {[k |-> "Bump", b |-> <<b1, 1>>, f |-> <<f1, 0>>, inc |-> <<i1, 3>>, maxB |-> <<mb, 2>>, maxF |-> <<mf, 1>>,
-               avail |-> <<av, 4>>, q |-> <<b1, f1, mb, mf>>] : b1 \in BV, f1 \in BV, i1 \in {0, 1, 5}, mb \in {0, 2, 3}, mf \in {0, 2, 3}, av \in {0, 3, 9}} :
-                 x.q[1] <= x.q[3] /\ x.q[2] <= x.q[4]}   \* what is charged never exceeds its own demand (an invariant of the caller)
+\* (what is charged never exceeds its own demand when the helper is called by the model - `dom`; the other inputs are outside
+\*  that invariant and only the "never lowers" clause is claimed for them)
+BumpCases == {[k |-> "Bump", b |-> <<b1, 1>>, f |-> <<f1, 0>>, inc |-> <<i1, 3>>, maxB |-> <<mb, 2>>, maxF |-> <<mf, 1>>,
+               avail |-> <<av, 4>>, dom |-> (b1 <= mb /\ f1 <= mf)] :
+               b1 \in BV, f1 \in BV, i1 \in {0, 1, 5}, mb \in {0, 2, 3}, mf \in {0, 2, 3}, av \in {0, 3, 9}}
 
 Init == c \in FillCases \cup RetimeCases \cup BumpCases
 Next == PrintT(ToJson(c)) /\ c' = [k |-> "done"]
